@@ -163,7 +163,7 @@ theorem ncNameOK_nil : ncNameOK [] = true := rfl
 theorem ncNameOK_xml : ncNameOK ['x', 'm', 'l'] = true := by decide
 theorem ncNameNE_xmlns : ncNameNE xmlnsName = true := by decide
 
-theorem lower_xml_ne {s : Str} (h : s.map asciiLower ≠ ['x', 'm', 'l']) : s ≠ ['x', 'm', 'l'] := by
+theorem lower_xml_ne {s : Str} (h : s.map asciiLowerChar ≠ ['x', 'm', 'l']) : s ≠ ['x', 'm', 'l'] := by
   rintro rfl
   exact h (by decide)
 
